@@ -287,8 +287,9 @@ def spread_tol(lo, hi):
     return 2.0 ** -20 * max(abs(lo), abs(hi), 1) + 2.0 ** -16 * (hi - lo)
 
 
-def check_spread(case, tr, side, qside, stats):
-    """reported coordinates inside the bin (closed interval, float tolerance) and close to the exact model"""
+def check_spread(case, tr, side, qside, stats, corr):
+    """reported coordinates inside the bin (closed interval, float tolerance): the statement.  Closeness to the exact
+    rational model is a correspondence matter: differences are appended to corr"""
     if not side.strip():
         return None
     vals = side.split()
@@ -325,10 +326,10 @@ def check_spread(case, tr, side, qside, stats):
                 for (v, e, lo, hi) in ((sx, ex, lox, hix), (sy, ey, loy, hiy)):
                     err = abs(v - e) / max(spread_tol(lo, hi), 1e-30)
                     stats["spread_max_err_in_tol"] = max(stats["spread_max_err_in_tol"], err)
-                    if err > 8:
-                        return "spreadCoord of cell %d at op %d is %r, exact value %r" % (c, k, v, e)
-            else:
-                return "spread: the exact model reports no coordinate for cell %d (in bin %d,%d) at op %d" % (c, bx, by, k)
+                    if err > 8 and not corr:
+                        corr.append("spreadCoord of cell %d at op %d is %r, the exact model (Q) says %r" % (c, k, v, e))
+            elif not corr:
+                corr.append("spread: the exact model reports no coordinate for cell %d (in bin %d,%d) at op %d" % (c, bx, by, k))
     return None
 
 
@@ -340,7 +341,7 @@ def demands_at(case, upto):
     return d
 
 
-def oracle(case, tr, side, qside, stats):
+def oracle(case, tr, side, qside, stats, corr):
     """returns None or a description of how the C++ output violates the statement of C16"""
     if not regions_disjoint(case["regions"]):
         return None   # outside the domain (never generated)
@@ -359,7 +360,7 @@ def oracle(case, tr, side, qside, stats):
         w = check_partition(case, rec["state"], demands_at(case, k + 1)) or check_findbin(case, rec["state"])
         if w:
             return "after op %d (code %d): %s" % (k, rec["code"], w)
-    return check_spread(case, tr, side, qside, stats)
+    return check_spread(case, tr, side, qside, stats, corr)
 
 
 # ---------------------------------------------------------------- run
@@ -414,7 +415,8 @@ def evaluate(lines, impl, model, stats):
         except Exception as e:
             bad_out.append((l, i[:3000], "unreadable trace from the harness: %s" % e))
             continue
-        w = oracle(case, tr, side, qside, stats)
+        corr = []
+        w = oracle(case, tr, side, qside, stats, corr)
         if w:
             bad_out.append((l, i[:3000], w))
         a, b = trace.split(), mtrace.split()
@@ -422,6 +424,8 @@ def evaluate(lines, impl, model, stats):
         if a != b or vbad or "ERROR" in m or "MODELERR" in m:
             k, ia, ib = first_diff(a, b)
             mism.append((l, ia, ib, ("token %d" % k) + (" checker:" + vbad[0] if vbad else "")))
+        elif corr:
+            mism.append((l, "", "", corr[0]))
         # coverage
         stats["cases"] += 1
         stats["tag_" + case["tag"]] += 1
@@ -488,26 +492,33 @@ def run(ctx):
     stats["spread_max_err_in_tol"] = 0.0
     impl, model = run_variant("plain", lines, driver, stats)
     bad_out, mism, nontriv = evaluate(lines, impl, model, stats)
-    # the NDEBUG build (what the pinned build ships): same cases, the code's own check() compiled out
-    impl2, model2 = None, None
-    try:
-        h2 = common.build_harness("density", "ndebug")
-        sub = lines if not ctx.quick else lines[:ncorpus + 1200]
-        impl2, _, _ = common.run_both([h2, "run"], None, sub, timeout=1200, chunk=200)
-        differ = [k for k in range(len(sub)) if impl2[k] != impl[k]]
-        stats["ndebug_cases"] = len(sub)
-        stats["ndebug_traces_differing_from_assert_build"] = len(differ)
-        if differ:
-            sl = [sub[k] for k in differ]
-            il = [impl2[k] for k in differ]
-            ml, _, _ = common.run_both([driver], None, compose(sl, il), timeout=1200, chunk=200)
-            st2 = Stats()
-            st2["spread_max_err_in_tol"] = 0.0
-            b2, m2, _ = evaluate(sl, il, ml, st2)
-            bad_out += [(l, i, "[NDEBUG build] " + w) for (l, i, w) in b2]
-            mism += [(l, a, b, "[NDEBUG build] " + w) for (l, a, b, w) in m2]
-    except common.BuildError:
-        raise
+    # the NDEBUG build (what the pinned build ships): the code's own check() compiled out.  Same cases (a prefix in the
+    # quick tier) plus every case on which the assert-enabled build died, so that the report says what the state looks like
+    h2 = common.build_harness("density", "ndebug")
+    died = [l for (l, i, w) in bad_out if "aborted/crashed/threw" in w][:40]
+    sub = (lines if not ctx.quick else lines[:ncorpus + 1200])
+    sub = sub + [l for l in died if l not in set(sub)]
+    pos = {l: k for k, l in enumerate(lines)}
+    impl2, _, _ = common.run_both([h2, "run"], None, sub, timeout=1200, chunk=200)
+    differ = [k for k in range(len(sub)) if impl2[k] != impl[pos[sub[k]]]]
+    stats["ndebug_cases"] = len(sub)
+    stats["ndebug_traces_differing_from_assert_build"] = len(differ)
+    nd_verdict = {}
+    if differ:
+        sl = [sub[k] for k in differ]
+        il = [impl2[k] for k in differ]
+        ml, _, _ = common.run_both([driver], None, compose(sl, il), timeout=1200, chunk=200)
+        st2 = Stats()
+        st2["spread_max_err_in_tol"] = 0.0
+        b2, m2, _ = evaluate(sl, il, ml, st2)
+        for (l, i, w) in b2:
+            nd_verdict[l] = w
+        for (l, a, b, w) in m2:
+            nd_verdict.setdefault(l, "model/implementation differ at " + w)
+        bad_out = [(l, i, w + ("; NDEBUG build on the same input: " + nd_verdict[l] if l in nd_verdict else "")) for (l, i, w) in bad_out]
+        known = set(l for (l, _, _) in bad_out)
+        bad_out += [(l, i, "[NDEBUG build] " + w) for (l, i, w) in b2 if l not in known]
+        mism += [(l, a, b, "[NDEBUG build] " + w) for (l, a, b, w) in m2]
     for (l, i, w) in bad_out[:3]:
         ctx.violation("density grid / cell-to-bin allocation of /repo violates C16: " + w,
                       {"case": l, "format": "see the header of harness/density.cpp", "implementation_trace": i, "why": w})
